@@ -15,7 +15,8 @@ class C27(Check):
     prop_file = "theories/Properties/Properties_C27.v"
     theorems = ("C27_arena_never_twice", "C27_arena_blocks_allocated_not_freed", "C27_arena_aligned_and_sized",
                 "C27_arena_block_sizes", "C27_arena_limit_respected", "C27_arena_used_accounting",
-                "C27_arena_used_quiescent", "C27_arena_refuses_beyond_limit", "C27_construct_limits",
+                "C27_arena_used_quiescent", "C27_arena_used_transient_exceeds", "C27_arena_refuses_beyond_limit",
+                "C27_construct_limits", "C27_construct_rejects",
                 "C27_cache_counter_exact", "C27_cache_bound_refuted", "C27_cache_bound_true",
                 "C27_cache_bound_tight", "C27_cache_bound_one_thread", "C27_cache_bound_nonoverlapping",
                 "C27_mempool_never_twice", "C27_mempool_returns_to_owner", "C27_mempool_accounting")
